@@ -142,6 +142,13 @@ class VObj:
         return '<{} {}>'.format(self.cls, self.fields)
 
 
+class VOpaque:
+    """a value the contract does not look into (e.g. the list of variable groups); only frame-free methods allowed"""
+
+    def __init__(self, what):
+        self.what = what
+
+
 class VClosure:
     def __init__(self, node, env, modinfo):
         self.node, self.env, self.modinfo = node, env, modinfo
@@ -367,8 +374,18 @@ class Engine:
             return VArr(L, self.fresh(base + '_arr', z3.ArraySort(z3.IntSort(), z3.IntSort())))
         if ty == 'none':
             return None
+        if ty == 'opaque':
+            return VOpaque(base)
+        if ty == 'opaquestr':
+            return '<str>'
+        if ty == 'optstr':
+            return None if self.choose(2) == 1 else '<str>'
         if ty.startswith('obj:'):
             return self.fresh_obj(base, ty[4:])
+        if ty.startswith('newobj:'):
+            return VObj(ty[7:])            # the object under construction: no field yet, no invariant yet
+        if ty.startswith('tuple:'):
+            return VTuple([self.fresh_of_type('{}_{}'.format(base, i), t) for i, t in enumerate(ty[6:].split(','))], 'tuple')
         if ty.startswith('const:'):
             return ast.literal_eval(ty[6:])
         raise Unsupported('type ' + ty)
@@ -379,6 +396,12 @@ class Engine:
             raise Unsupported('no class model for ' + cls)
         o = VObj(cls)
         for f, ty in model['fields'].items():
+            if ty.startswith('range:'):
+                _, lo, hi = ty.split(':')
+                o.fields[lo] = self.fresh('{}.{}'.format(base, lo))
+                o.fields[hi] = self.fresh('{}.{}'.format(base, hi))
+                o.fields[f] = VRange(o.fields[lo], o.fields[hi], 1)
+                continue
             o.fields[f] = self.fresh_of_type('{}.{}'.format(base, f), ty)
         for inv in model.get('invariant', []):
             self.assume(self.spec_eval(inv, {'self': o}))
@@ -757,6 +780,11 @@ class Engine:
             return self.fresh(name)
         if isinstance(v, str):
             return self.fresh(name, z3.StringSort())
+        if isinstance(v, VTuple) and v.kind == 'list' and all(isinstance(x, int) or (is_z3(x) and z3.is_int(x)) for x in v.items):
+            # a list of ints that the loop may grow: from here on (length, array)
+            L = self.fresh(name + '_len')
+            self.pc.append(L >= 0)
+            return VArr(L, self.fresh(name + '_arr', z3.ArraySort(z3.IntSort(), z3.IntSort())))
         if isinstance(v, VTuple):
             return VTuple([self.havoc_value('{}_{}'.format(name, i), x) for i, x in enumerate(v.items)], v.kind)
         raise Unsupported('havoc of {!r} ({})'.format(v, name))
@@ -910,6 +938,8 @@ class Engine:
                 return                  # for/else: else skipped
             except ContinueSig:
                 pass
+            for h in spec.get('hints', []):      # ghost lemma steps: proved (auxiliary), then available
+                self.oblige('hint', h, self.spec_eval(h, env), s.lineno, decisive=False)
             env[itname] = i + 1
             self.assign(s.target, elem(i + 1), env)
             self.check_inv(spec, env, 'inv-pres', s.lineno)
@@ -1031,7 +1061,11 @@ class Engine:
             return VTuple(a.items * b, a.kind)
         if isinstance(a, str) and isinstance(b, str) and isinstance(op, ast.Add):
             return a + b
+        if isinstance(a, VTuple) and isinstance(op, ast.Mult) and is_z3(b):
+            return VOpaque('list repeated a symbolic number of times')
         if isinstance(a, str) or isinstance(b, str):
+            if isinstance(op, (ast.Add, ast.Mod, ast.Mult)):
+                return '<str>'          # strings are opaque: content not modelled, TypeError of str ops not modelled
             raise Unsupported('string arithmetic')
         if isinstance(a, bool):
             a = int(a)
@@ -1151,8 +1185,11 @@ class Engine:
         if isinstance(o, VObj):
             if e.attr in o.fields:
                 return o.fields[e.attr]
+            if e.attr[-3:] in ('_lo', '_hi') and isinstance(o.fields.get(e.attr[:-3]), VRange):
+                r = o.fields[e.attr[:-3]]
+                return toz(r.lo) if e.attr.endswith('_lo') else toz(r.hi)
             return ('method', o, e.attr)
-        if isinstance(o, (VTuple, VMList, VArr, VSeq)) or isinstance(o, str):
+        if isinstance(o, (VTuple, VMList, VArr, VSeq, VOpaque)) or isinstance(o, str):
             return ('method', o, e.attr)
         if isinstance(o, tuple) and o[0] == 'global':
             return ('global', o[1] + '.' + e.attr)
@@ -1173,6 +1210,11 @@ class Engine:
             # symbolic index into a concrete tuple of scalars
             n = len(base.items)
             i = toz(idx)
+            if n == 0:
+                if not getattr(self, 'in_spec', False):
+                    self.oblige('hazard', 'index in bounds: {}'.format(ast.unparse(e)), False, e.lineno)
+                    raise PyExc('IndexError', e.lineno)
+                return self.fresh('anyval')
             if not getattr(self, 'in_spec', False):
                 self.oblige('hazard', 'index in bounds: {}'.format(ast.unparse(e)), z3.And(i >= -n, i < n), e.lineno)
             ii = z3.If(i >= 0, i, n + i)
@@ -1203,6 +1245,10 @@ class Engine:
             if idx == -2:
                 return base.op
             raise Unsupported('constraint index {}'.format(idx))
+        if isinstance(base, VRange) and base.step == 1 and not isinstance(idx, (VTuple, VSeq)):
+            n = zmax(toz(base.hi) - toz(base.lo), z3.IntVal(0))
+            i = toz(idx) if getattr(self, 'in_spec', False) else self.norm_index(idx, n, e)
+            return toz(base.lo) + i
         if isinstance(base, VRange):
             raise Unsupported('subscript of range')
         if isinstance(base, VObj):
@@ -1215,6 +1261,12 @@ class Engine:
         st = self.eval(sl.step, env) if sl.step else None
         if isinstance(base, VTuple) and all(x is None or isinstance(x, int) for x in (lo, hi, st)):
             return VTuple(base.items[slice(lo, hi, st)], base.kind)
+        if isinstance(base, VArr) and lo is None and hi is None and st == -1:
+            t = z3.Int('rev!j')
+            n = base.length
+            return VArr(n, z3.Lambda([t], z3.Select(base.arr, n - 1 - t)))
+        if isinstance(base, VArr) and lo is None and hi is None and st is None:
+            return VArr(base.length, base.arr)
         if isinstance(base, VCon) and lo is None and hi == -2 and st is None:
             return VTerms(base.terms)            # slice copy: a fresh list with the same content
         if isinstance(base, (VSeq, VMList)) and base.term.sort() == specs.OSeq and getattr(self, 'in_spec', False):
@@ -1295,9 +1347,14 @@ class Engine:
             args = [self.eval(a, env) for a in e.args]
             kw = {k.arg: self.eval(k.value, env) for k in e.keywords}
             return f.fn(self, e, *args, **kw)
-        args = [self.eval(a, env) for a in e.args]
+        if isinstance(f, tuple) and f[0] == 'method' and isinstance(f[1], str) and f[2] == 'format':
+            # str.format: result opaque; a format string with more placeholders than arguments raises IndexError
+            if self.choose(2) == 1:
+                raise PyExc('IndexError', e.lineno)
+            return '<formatted>'
         if any(isinstance(a, ast.Starred) for a in e.args):
             raise Unsupported('star args')
+        args = [self.eval(a, env) for a in e.args]
         kw = {k.arg: self.eval(k.value, env) for k in e.keywords}
         if isinstance(f, VClosure):
             return self.call_inline(f.node, f.env, args, kw, f.modinfo, None, e)
@@ -1325,6 +1382,14 @@ class Engine:
                     return self.construct(p, orig, args, kw, node)
         if lib:
             return lib(self, node, *args, **kw)
+        if '.' in name:
+            cname, meth = name.split('.', 1)
+            hit = self.repo.find_class(rel, cname)
+            if hit and args and isinstance(args[0], VObj):
+                r = self.repo.resolve_method(rel, cname, meth)
+                if r:
+                    mrel, mcls, fnode = r
+                    return self.call_function(mrel, '{}.{}'.format(mcls, meth), fnode, args[1:], kw, node, selfobj=args[0])
         if name in mi['funcs']:
             return self.call_function(rel, name, mi['funcs'][name], args, kw, node)
         if name in mi['classes']:
@@ -1494,7 +1559,24 @@ class Engine:
         self.call_contract(key, c, hit[2], args, kw, node, o)
         return o
 
+    def class_mro(self, cls):
+        crel = self.classmodels.get(cls, {}).get('file')
+        out, todo = [], [(crel, cls)]
+        while todo:
+            rel, c = todo.pop(0)
+            hit = self.repo.find_class(rel, c) if rel else None
+            if not hit:
+                continue
+            r2, (node, methods, bases) = hit
+            out.append(node.name)
+            todo.extend((r2, b) for b in bases)
+        return out
+
     def call_method(self, o, meth, args, kw, node):
+        if isinstance(o, VOpaque):
+            if meth in ('append',):
+                return None
+            raise Unsupported('method {} on opaque value {}'.format(meth, o.what))
         if isinstance(o, VObj):
             # where is the class?
             crel = self.classmodels.get(o.cls, {}).get('file')
@@ -1519,6 +1601,8 @@ class Engine:
             return '<formatted>'
         if isinstance(o, str) and meth == 'join':
             return '<joined>'
+        if isinstance(o, str) and meth in ('strip', 'lower', 'upper'):
+            return '<str>'
         raise Unsupported('method {} of {!r} (line {})'.format(meth, o, node.lineno))
 
 
@@ -1545,6 +1629,17 @@ def _term(v):
             t = specs.isnoc(t, toz(x))
         return t
     return toz(v)
+
+
+def as_arr(v):
+    if isinstance(v, VArr):
+        return v
+    if isinstance(v, VTuple):
+        a = z3.K(z3.IntSort(), z3.IntVal(0))
+        for i, x in enumerate(v.items):
+            a = z3.Store(a, i, toz(x))
+        return VArr(z3.IntVal(len(v.items)), a)
+    raise Unsupported('not an int list: {!r}'.format(v))
 
 
 def sf_old(eng, node, env):
@@ -1608,6 +1703,7 @@ SPEC_FUNCS = {
     'ohaszero': _wrap(specs.ohaszero), 'onormal': _wrap(specs.onormal),
     'mkcon': _wrap(specs.mkcon), 'con_terms': _wrap(specs.Con.terms), 'con_op': _wrap(specs.Con.op), 'con_value': _wrap(specs.Con.value),
     'cmp_op': lambda eng, node, op, a, b: specs.cmp_op(_term(op), toz(a), toz(b)),
+    'psum': lambda eng, node, I, W, t: specs.psum(as_arr(I).arr, as_arr(W).arr, toz(t)),
     'zmax': lambda eng, node, a, b: zmax(toz(a), toz(b)),
     'zmin': lambda eng, node, a, b: zmin(toz(a), toz(b)),
     'floordiv': lambda eng, node, a, b: py_floordiv(a, b),
@@ -1698,7 +1794,17 @@ def b_list(eng, node, v=None):
 
 
 def b_isinstance(eng, node, v, t):
-    raise Unsupported('isinstance')
+    # decided by the declared type (DESIGN 2.1)
+    name = t[1] if isinstance(t, tuple) and t[0] == 'global' else None
+    if isinstance(t, VSpecFn) and t.fn is b_int:
+        name = 'int'
+    if name in ('numbers.Integral', 'int', 'numbers.Real') and (isinstance(v, int) or (is_z3(v) and z3.is_int(v))) \
+            and not isinstance(v, bool):
+        return True
+    if isinstance(v, VObj) and name:
+        mro = eng.class_mro(v.cls)
+        return name.split('.')[-1] in mro
+    raise Unsupported('isinstance({!r}, {})'.format(v, name))
 
 
 def b_isgenerator(eng, node, v):
@@ -1725,6 +1831,25 @@ def b_enumerate(eng, node, a):
     raise Unsupported('enumerate of symbolic sequence')
 
 
+def b_sum_raw(eng, node, env):
+    """sum(...) ; recognises the mixed-radix pattern  sum((i - 1) * w for i, w in zip(I, W))  over two int lists"""
+    arg = node.args[0]
+    if isinstance(arg, ast.GeneratorExp) and len(arg.generators) == 1 and not arg.generators[0].ifs:
+        g = arg.generators[0]
+        if isinstance(g.iter, ast.Call) and isinstance(g.iter.func, ast.Name) and g.iter.func.id == 'zip' \
+                and len(g.iter.args) == 2 and isinstance(g.target, ast.Tuple) and len(g.target.elts) == 2:
+            a, b = [x.id for x in g.target.elts]
+            if ast.unparse(arg.elt) == '({} - 1) * {}'.format(a, b):
+                I = eng.eval(g.iter.args[0], env)
+                W = eng.eval(g.iter.args[1], env)
+                if isinstance(I, VArr) and isinstance(W, VArr):
+                    return specs.psum(I.arr, W.arr, zmin(toz(I.length), toz(W.length)))
+    return b_sum(eng, node, eng.eval(arg, env))
+
+
+b_sum_raw.raw = True
+
+
 def b_sum(eng, node, a):
     if isinstance(a, VTuple):
         r = 0
@@ -1745,7 +1870,7 @@ def b_next(eng, node, a):
 
 BUILTINS = {'len': b_len, 'abs': b_abs, 'min': b_minmax('min'), 'max': b_minmax('max'), 'range': b_range,
             'list': b_list, 'tuple': b_list, 'isinstance': b_isinstance, 'int': b_int, 'zip': b_zip,
-            'enumerate': b_enumerate, 'sum': b_sum, 'next': b_next, 'iter': lambda eng, node, v: v}
+            'enumerate': b_enumerate, 'sum': b_sum_raw, 'next': b_next, 'iter': lambda eng, node, v: v}
 
 
 def lib_combinations(eng, node, seq, k):
